@@ -76,6 +76,7 @@ struct BuildNode<Data: GarnishData> {
     root_end_instruction: Option<Vec<(Instruction, Option<Data::Size>)>>,
     conditional_parent: Option<usize>,
     conditional_items: Vec<ConditionItem<Data>>,
+    left_built: bool,
 }
 
 impl<Data: GarnishData> BuildNode<Data> {
@@ -91,6 +92,7 @@ impl<Data: GarnishData> BuildNode<Data> {
             root_end_instruction: None,
             conditional_parent: None,
             conditional_items: vec![],
+            left_built: false,
         }
     }
 
@@ -106,6 +108,7 @@ impl<Data: GarnishData> BuildNode<Data> {
             root_end_instruction: None,
             conditional_parent: None,
             conditional_items: vec![],
+            left_built: false,
         }
     }
 
@@ -121,6 +124,7 @@ impl<Data: GarnishData> BuildNode<Data> {
             root_end_instruction: None,
             conditional_parent: Some(conditional_parent),
             conditional_items: vec![],
+            left_built: false,
         }
     }
 
@@ -136,6 +140,7 @@ impl<Data: GarnishData> BuildNode<Data> {
             root_end_instruction: None,
             conditional_parent: None,
             conditional_items: vec![],
+            left_built: false,
         }
     }
 
@@ -151,6 +156,7 @@ impl<Data: GarnishData> BuildNode<Data> {
             root_end_instruction: Some(end_instruction),
             conditional_parent: None,
             conditional_items: vec![],
+            left_built: false,
         }
     }
 }
@@ -406,6 +412,25 @@ fn handle_parse_node<Data: GarnishData>(
                 Some(Some(node)) => node,
                 _ => Err(CompilerError::new_message(format!("No build node at index {}", node_index)))?,
             };
+
+            // a block that took over the operand of a group or follows another block
+            // has that expression on its left, build it first
+            let pending_left = match (node.state, node.left_built, parse_node.get_left()) {
+                (BuildNodeState::Uninitialized, false, Some(left)) => Some(left),
+                _ => None,
+            };
+
+            match pending_left {
+                Some(left) => {
+                    node.left_built = true;
+                    let containing = node.containing_expression_jump.clone();
+                    stack.push(node_index);
+                    stack.push(left);
+                    nodes[left] = Some(BuildNode::new(left, containing));
+                    return Ok(());
+                }
+                None => {}
+            }
 
             match node.state {
                 BuildNodeState::Uninitialized => {
